@@ -177,13 +177,29 @@ func search(a map[string]string, pool service.TransactionPool) {
 			for _, m := range g.nativeMutants(tx, other) {
 				distinct++
 				acc := s.accept(c, height, m.tx)
-				if m.auth && acc && m.field == "Sign-recid-alias" {
+				if m.auth && acc && (m.field == "Sign" || m.field == "Sign-family") && m.tx.Sign != nil && !sameSignature(m.tx.Sign, tx.Sign) {
+					s.report("native-sign-malleated-accepted", "a changed signature is accepted on an accepted native transaction: honest Sign="+hx.Hex(tx.Sign.Bytes())+" mutant Sign="+hx.Hex(m.tx.Sign.Bytes()), c, height, m.tx)
+				} else if m.auth && acc && (m.field == "Sign-recid-alias" || ((m.field == "Sign" || m.field == "Sign-family") && m.tx.Sign != nil)) {
 					s.report("native-sign-recid-alias-accepted", "Sign with the recovery id respelled 27/28 <-> 0/1 is accepted: the signature bytes of an accepted transaction can be changed by anyone", c, height, m.tx)
 				} else if m.auth && acc {
 					s.report("native-mutant-accepted:"+m.field, "single-field mutant of an accepted native transaction is accepted", c, height, m.tx)
 				}
 				if !m.auth && !acc {
 					s.infos["unauth-field-mutant-rejected:"+m.field]++
+				}
+			}
+		}
+		// algebraically related signatures: anything accepted whose Sign bytes differ from the
+		// honest ones is a violation; only a pure respelling of the recovery id is the known alias class
+		for _, v := range signFamily(tx.Sign) {
+			m := cloneTx(tx)
+			m.Sign = v.sg
+			distinct++
+			if s.accept(c, height, m) {
+				if sameSignature(v.sg, tx.Sign) {
+					s.report("native-sign-recid-alias-accepted", "Sign with the recovery id respelled 27/28 <-> 0/1 is accepted: the signature bytes of an accepted transaction can be changed by anyone", c, height, m)
+				} else {
+					s.report("native-sign-malleated-accepted", "a signature algebraically related to the honest one ("+v.name+") is accepted on an accepted native transaction although its (r,s,recid) differ: honest Sign="+hx.Hex(tx.Sign.Bytes())+" mutant Sign="+hx.Hex(v.sg.Bytes()), c, height, m)
 				}
 			}
 		}
@@ -200,7 +216,11 @@ func search(a map[string]string, pool service.TransactionPool) {
 			m.Sign = flipSign(tx.Sign, bit)
 			distinct++
 			if s.accept(c, height, m) {
-				s.report("native-mutant-accepted:Sign", "single-bit flip of Sign accepted", c, height, m)
+				if sameSignature(m.Sign, tx.Sign) {
+					s.report("native-sign-recid-alias-accepted", "recovery id respelled by a single-bit flip is accepted", c, height, m)
+				} else {
+					s.report("native-mutant-accepted:Sign", "single-bit flip of Sign accepted", c, height, m)
+				}
 			}
 		}
 		// the same content honestly signed for another chain id must not be admitted here
